@@ -649,6 +649,11 @@ func (e *Enc) convert(fr *Frame, v Val, from, to types.Type) Val {
 	if e.sortOf(from) == e.sortOf(to) {
 		return Val{T: v.T, Typ: to}
 	}
+	if fb != nil && tb != nil && fb.Info()&types.IsFloat != 0 && tb.Info()&types.IsInteger != 0 {
+		// float -> integer truncation: an uninterpreted function (contracts: f2i(x))
+		f := e.sc.DeclFun("f2i", []string{"Real"}, "Int")
+		return Val{T: app(f, v.T), Typ: to}
+	}
 	return e.freshVal("convert", to)
 }
 
